@@ -101,6 +101,15 @@ var langTags = []ap.LangRef{"en", "fr", "de", "en-GB", "pt-BR", "ja", "zh-Hans"}
 // NLV generates a natural-language value: one untagged, one tagged or 2..4 entries with distinct real tags.
 func (g *Gen) NLV() ap.NaturalLanguageValues {
 	k := rapid.IntRange(0, 9).Draw(g.T, "nlshape")
+	if g.O.Gob && !g.O.NoNLMaps && rapid.IntRange(0, 11).Draw(g.T, "repeated-tag") == 0 {
+		// several values under one tag: only the binary form can say that
+		tag := rapid.SampledFrom(append([]ap.LangRef{ap.NilLangRef}, langTags...)).Draw(g.T, "tag")
+		out := ap.NaturalLanguageValues{{Ref: tag, Value: ap.Content(g.text())}, {Ref: tag, Value: ap.Content(g.text() + " (2)")}}
+		if rapid.Bool().Draw(g.T, "third") {
+			out = append(out, ap.LangRefValue{Ref: "en-GB", Value: ap.Content(g.text())})
+		}
+		return out
+	}
 	switch {
 	case k < 5 || (g.O.NoNLMaps && k < 8):
 		return ap.NaturalLanguageValues{{Ref: ap.NilLangRef, Value: ap.Content(g.text())}}
